@@ -577,6 +577,18 @@ class VC(Executor, ExprMixin, StmtMixin, CallMixin):
         res.obligations = [agg[n] for n in order]
 
     def solve(self, ob: Obligation):
+        dump = os.environ.get('PYVC_DUMP')
+        if dump and dump in getattr(ob, 'name', ''):
+            s = z3.Solver()
+            for p in ob.pc:
+                s.add(p)
+            s.add(z3.Not(ob.goal))
+            with open(f"/tmp/pyvc_dump_{abs(hash(ob.name)) % 10000}.smt2", 'w') as f:
+                f.write(s.to_smt2())
+            with open(f"/tmp/pyvc_dump_{abs(hash(ob.name)) % 10000}.txt", 'w') as f:
+                for p in ob.pc:
+                    f.write(str(p).replace('\n', ' ') + '\n')
+                f.write('GOAL ' + str(ob.goal) + '\n')
         # first attempt: quantifier-free hypotheses only (sound: fewer hypotheses), fast for simple goals
         qf = [p for p in ob.pc if not _has_quant(p)]
         if len(qf) < len(ob.pc) and not _has_quant(ob.goal):
@@ -589,6 +601,22 @@ class VC(Executor, ExprMixin, StmtMixin, CallMixin):
                 return 'discharged', 'z3-5.1.0', None
         # relevance-ranked subsets of the quantified hypotheses (sound: dropping hypotheses), smallest first
         quants = [p for p in ob.pc if _has_quant(p)]
+        if 3 < len(quants) <= 25 and not _has_quant(ob.goal):
+            # few quantified hypotheses: the few most relevant ones first (recursive definitions such as the prefix sums of
+            # `sumof` can keep the instantiation engine busy on goals that do not need them)
+            ranked = self.rank_hypotheses(ob.goal, ob.pc, quants)
+            for nsel in (3, 6, 12):
+                if nsel >= len(quants):
+                    break
+                s1 = z3.Solver()
+                s1.set('timeout', min(1500, self.budget_ms))
+                for p in qf:
+                    s1.add(p)
+                for p in ranked[:nsel]:
+                    s1.add(p)
+                s1.add(z3.Not(ob.goal))
+                if s1.check() == z3.unsat:
+                    return 'discharged', 'z3-5.1.0', None
         if len(quants) > 25:
             # quick attempt with everything: most obligations discharge at once
             s2 = z3.Solver()
